@@ -370,6 +370,10 @@ def opCreate (l : L) (t : List String) : L × String :=
     | _, _, _, _, _ => (l, "bad-op")
   | _, _, _, _, _, _ => (l, "bad-op")
 
+/-- cross-check of the two formulations of `removeConflict` on a concrete store -/
+def dfsAgrees (s : Publish.Store) (id : Nat) : Bool :=
+  (Publish.removeConflictDFS (s.unmined.length + 1) s id).unmined == (Publish.removeWithDescendants s id).unmined
+
 def opPublish (l : L) (t : List String) : L × String :=
   match (kv t "name").bind parseTx, parseAnswer ((kv t "ans").getD "") with
   | some id, some ans =>
@@ -377,6 +381,7 @@ def opPublish (l : L) (t : List String) : L × String :=
     | none => (l, "bad-op")
     | some tx =>
       let ans := if (kv t "notify") == some "fail" then Publish.Answer.notifyFailed else ans
+      if !dfsAgrees (Publish.insert l.store tx.toU) id then (l, "model-mismatch removeConflict") else
       let (s', ok) := Publish.publish l.store tx.toU ans
       (l.applyStore s' none, if ok then "ok" else "err")
   | _, _ => (l, "bad-op")
@@ -386,6 +391,7 @@ def opResync (l : L) (restart : Bool) (t : List String) : L × String :=
   | none => (l, "bad-op")
   | some answers =>
     let f := fun (id : Nat) => (answers.lookup id).getD .accepted
+    if !(l.store.unmined.all fun u => dfsAgrees l.store u.id) then (l, "model-mismatch removeConflict") else
     let (s', sent) := Publish.resend l.store f
     let l := l.applyStore s' none
     let l := { l with wHeight := l.tip, locks := if restart then [] else l.locks }
